@@ -20,6 +20,15 @@ func SortedIdNames(tab map[string]*Idendity) []string {
 	return names
 }
 
+// charCode is the code of a character literal token: the code point of its
+// (first) character, not the first byte of its UTF-8 encoding.
+func charCode(lit string) int {
+	for _, r := range lit {
+		return int(r)
+	}
+	return 0
+}
+
 func genTempName(in string) string {
 	return "$operator" + in
 }
